@@ -100,6 +100,10 @@ impl RenetClient {
                 forall|i: int| 0 <= i < scfg.len() ==> *(#[trigger] it1.seq()[i]) == scfg[i],
                 channel_send_order@.len() == it1.index(),
                 forall|j: int| 0 <= j < it1.index() ==> channel_send_order@[j] == order_entry(#[trigger] scfg[j]),
+                forall|j: int| 0 <= j < it1.index() ==> match #[trigger] channel_send_order@[j] {
+                    ChannelOrder::Reliable(c) => send_reliable_channels@.contains_key(c),
+                    ChannelOrder::Unreliable(c) => send_unreliable_channels@.contains_key(c),
+                },
                 forall|j: int| 0 <= j < it1.index() ==> send_wired(#[trigger] scfg[j], send_reliable_channels@, send_unreliable_channels@),   // @C01,C02 from_channels.each_send_channel_built_as_configured
                 forall|id: u8| send_reliable_channels@.contains_key(id) || send_unreliable_channels@.contains_key(id)
                     ==> exists|j: int| 0 <= j < it1.index() && (#[trigger] scfg[j]).channel_id == id,
